@@ -8,6 +8,7 @@ mod render;
 mod util;
 mod cmd_core;
 mod cmd_fuzz;
+mod cmd_typecheck;
 mod cmd_conform;
 
 /// Command families.  To add one: create src/cmd_xxx.rs with
@@ -16,6 +17,7 @@ mod cmd_conform;
 const FAMILIES: &[fn(&str, &J) -> Option<Result<J, String>>] = &[
     cmd_core::dispatch,
     cmd_fuzz::dispatch,
+    cmd_typecheck::dispatch,
     cmd_conform::dispatch,
 ];
 
